@@ -392,6 +392,34 @@ func TestC02(t *testing.T) {
 					}
 				}
 
+				// (4c) a sender that truncates an all-zero payload down to nothing (LEN = 0): a well-formed v2 frame, whose checksum
+				// over header+CRC_EXTRA is right: delivered, decoded as the all-zero message
+				if version == 2 && form == 0 {
+					z := *s
+					z.Payload = []byte{}
+					ref.Seal(&z, mi.Layout.CRCExtra, nil)
+					zw := ref.Serialize(&z)
+					rep.Eval(1)
+					rep.Count("empty_payload_valid_frames", 1)
+					guard(rep, "kind=panic msg="+mi.Name, func() interface{} { return vh.Hex(zw) }, func() {
+						rd, ierr := newFrameSource(bytes.NewReader(zw), genv.drw, nil)
+						if ierr != nil {
+							return
+						}
+						fr, err := rd.Read()
+						if err != nil {
+							rep.Violation(fmt.Sprintf("kind=undelivered msg=%s", mi.Name), "a well-formed v2 frame with an empty payload (all-zero message, fully truncated) and the correct checksum was not delivered: "+err.Error(), vh.Hex(zw))
+							return
+						}
+						zero := reflect.New(mi.Type)
+						if m := frameMessage(fr); reflect.TypeOf(m) != zero.Type() {
+							rep.Violation(fmt.Sprintf("kind=undelivered msg=%s", mi.Name), fmt.Sprintf("valid empty-payload frame delivered as %T", m), vh.Hex(zw))
+						} else if eq, diff := mi.Layout.BitEqual(reflect.ValueOf(m), mi.Layout.Canonical(zero, true)); !eq {
+							rep.Violation(fmt.Sprintf("kind=undelivered msg=%s", mi.Name), "valid empty-payload frame decoded to a non-zero value (field "+diff+")", vh.Hex(zw))
+						}
+					})
+				}
+
 				// (3a) a frame whose length byte and payload were altered - zero bytes appended, length raised - while it still
 				// carries the checksum of the frame it was made from: that value is not the CRC over length..payload+CRC_EXTRA
 				if version == 2 && form == 0 && len(s.Payload) < mi.Layout.SizeExt {
